@@ -137,6 +137,9 @@ pub struct Shadow {
     pub globals: [Option<u64>; MAX_ROOTS],
     /// address ranges handed out since the last collection: start -> (end, id)
     pub recent: BTreeMap<usize, (usize, u64)>,
+    /// address ranges of the objects that survived the last collection (and of immortal
+    /// garbage): start -> (end, id); rebuilt by `verify_heap`
+    pub live_iv: BTreeMap<usize, (usize, u64)>,
     /// objects in never-collected spaces that became unreachable: must stay intact for ever
     pub immortal_garbage: Vec<SObj>,
     /// ephemeron table of the binding (key id, value id): the value is reachable iff the key is
@@ -355,14 +358,13 @@ impl World {
 
     /// The live interval (start, end, id) overlapping [s, e), if any.
     pub fn overlap(&self, s: usize, e: usize) -> Option<(usize, usize, u64)> {
-        if let Some((&rs, &(re, id))) = self.shadow.recent.range(..e).next_back() {
-            if re > s && rs < e {
-                return Some((rs, re, id));
-            }
-        }
-        for o in self.shadow.objs.values().chain(self.shadow.immortal_garbage.iter()) {
-            if o.addr < e && s < o.addr + o.size {
-                return Some((o.addr, o.addr + o.size, o.id));
+        for map in [&self.shadow.recent, &self.shadow.live_iv] {
+            // intervals in a map are pairwise disjoint, so only the last one starting below `e`
+            // can reach into [s, e)
+            if let Some((&rs, &(re, id))) = map.range(..e).next_back() {
+                if re > s && rs < e {
+                    return Some((rs, re, id));
+                }
             }
         }
         None
@@ -732,6 +734,10 @@ impl World {
             so.age += gcs as u32;
         }
         self.shadow.recent.clear();
+        self.shadow.live_iv.clear();
+        for o in self.shadow.objs.values().chain(self.shadow.immortal_garbage.iter()) {
+            self.shadow.live_iv.insert(o.addr, (o.addr + o.size, o.id));
+        }
         self.stats.objects_moved += moved as u64;
         self.stats.objects_verified += new_addr.len() as u64;
         if !dead.is_empty() && !new_addr.is_empty() {
@@ -802,6 +808,7 @@ impl World {
             for id in dead {
                 let o = self.shadow.objs.remove(&id).unwrap();
                 self.shadow.recent.remove(&o.addr);
+                self.shadow.live_iv.insert(o.addr, (o.addr + o.size, o.id));
                 self.shadow.immortal_garbage.push(o);
             }
         }
